@@ -30,7 +30,8 @@ KINDS = ['mv', 'number', 'npscalar', 'list', 'tuple', 'callable', 'nested-callab
 def floors(tier):
     f = {'distinct_nontrivial': 1500 if tier == 'quick' else 250000, 'index_cases': 500, 'setitem_cases': 250,
          'setitem_postconditions_evaluated': 250, 'operand_kind_cases': 600, 'noncommuting_sequence_or_callable_left': 150,
-         'reflected_dispatch_cases': 200, 'container_ndarray': 150, 'container_list': 150, 'container_tuple': 50, 'callable_operand_cases': 300, 'post_update_probes_compared': 300}
+         'reflected_dispatch_cases': 200, 'container_ndarray': 150, 'container_list': 150, 'container_tuple': 50, 'callable_operand_cases': 300, 'post_update_probes_compared': 300,
+         'mixed_rank_cases': 100}
     for sym in INFIX:
         f['infix_' + sym] = 40
     return f
@@ -106,6 +107,10 @@ def run_shard(shard, ctx):
                 if ctx.out_of_time():
                     return
                 index_case(ctx, alg, iso, cfg, name)
+            for _ in range(max(6, unit['n_index'] // 6)):
+                if ctx.out_of_time():
+                    return
+                mixed_rank_case(ctx, alg, cfg, name)
             for _ in range(unit['n_setitem']):
                 if ctx.out_of_time():
                     return
@@ -272,6 +277,48 @@ def index_case(ctx, alg, iso, cfg, name):
     if bad or any(shapes_w.get(k) != shapes_p.get(k) for k in set(gw) & set(gp_)):
         ctx.violation('op(X, Y)[idx] != op(X[idx], Y[idx])', cid, config=cfg, op=op, shape=list(shape), container=container, container_y=container_y,
                       index=idx_repr(idx), blades=[alg.bin2canon[k] for k in bad[:6]],
+                      indexed_result=show_elem({k: gw.get(k) for k in bad[:3]}), result_of_indexed=show_elem({k: gp_.get(k) for k in bad[:3]}))
+
+
+def mixed_rank_case(ctx, alg, cfg, name):
+    """Both operands array-backed on the SAME blades, with different numbers of trailing dimensions: C holds one number per blade
+    (a constant multivector), Y an array per blade whose last axis is as long as the number of blades (so that adding the two value
+    containers with numpy would broadcast silently - along the wrong axis). op(C, Y)[idx] must equal op(C, Y[idx])."""
+    import numpy as np
+    rng = ctx.rng
+    canon = tuple(alg.canon2bin.values())
+    if len(canon) < 2:
+        return
+    kx = gen.random_subset(rng, canon, 3, 2)
+    n = len(kx)
+    shape = rng.choice([(n,), (2, n), (n, n)])      # (rank <= 2: rank-3 indices on array-backed operands run into the known finding)
+    op = rng.choice(['add', 'sub', '+', '-', 'gp', '*', 'op', 'ip', 'acp'])
+    C = _from(alg, kx, np.array([rng.randint(-8, 8) / 2.0 + 0.25 for _ in kx]))
+    Y = array_mv(rng, alg, kx, shape, 'ndarray')
+    idx = rand_index(rng, shape)
+    swap = rng.random() < 0.5
+    cid = [name, 'mixed-rank', op, list(kx), list(shape), idx_repr(idx), swap]
+    if not ctx.want(cid):
+        return
+
+    def apply(a, b):
+        if swap:
+            a, b = b, a
+        if op in INFIX:
+            return eval(f'a {op} b', {'a': a, 'b': b})
+        return getattr(a, op)(b)
+    st, out = ctx.guarded(30, lambda: (apply(C, Y)[idx], apply(C, Y[idx])))
+    if st != 'ok':
+        if st == 'exc':
+            ctx.note_raised(out, 'mixed-rank-' + op)
+        return
+    ctx.count('mixed_rank_cases')
+    ctx.case(cid)
+    gw, gp_ = mv_dict(out[0]), mv_dict(out[1])
+    bad = elem_diff(gw, gp_)
+    if bad or any(np.shape(gw[k]) != np.shape(gp_[k]) for k in set(gw) & set(gp_)):
+        ctx.violation('op(C, Y)[idx] != op(C, Y[idx]) for a constant array-backed C on the same blades', cid, config=cfg, op=op, shape=list(shape),
+                      index=idx_repr(idx), swapped=swap, blades=[alg.bin2canon[k] for k in bad[:6]],
                       indexed_result=show_elem({k: gw.get(k) for k in bad[:3]}), result_of_indexed=show_elem({k: gp_.get(k) for k in bad[:3]}))
 
 
